@@ -55,6 +55,13 @@ def run(chk):
         okev += len(ch)
     chk.cov["traces_validated_against_impl"] = r1["scenarios"] + nchunks
     chk.cov["events_validated"] = okev + validated
+    # the batch path: calls grouped into one multi request must each be filed under the region that owns their row
+    import wirecontent
+    rc = wirecontent.run_content(chk)
+    for v in rc["violations"] or []:
+        if wirecontent.misrouted(v):
+            chk.violation("batch-path:" + v["sig"], v["desc"], dict(kind="c01-batch", detail=v))
+    chk.cov["batch_path_operations_decoded"] = rc["distinct"]
     chk.cov["evaluations"] = r1["distinct"] + ngets
     chk.cov["distinct_nontrivial"] = r1["distinct"] + ngets
     chk.cov["rule"] = ("routing: all 32 layouts of the TLC scope (every subset of 5 boundaries around 0x00 ',' 0xff) x 17 keys (at, next to, "
